@@ -178,6 +178,28 @@ def showStripes (cols : List Col) (recs : String) : Option String :=
   | none => none
   | some rs => some ("|".intercalate ((List.range cols.length).map fun i => showEntries (rs.flatMap fun r => r.getD i [])))
 
+/-- outcome class of reading `file`: `A` accepted, `E` constructor error, `e` error after iterating, `P` panic -/
+def classifyRead (cols : List Col) (dc : Decomp) (file : Bytes) : Char :=
+  let r := readAll cols dc file
+  if r.startsWith "open=err" then 'E'
+  else if r.startsWith "open=panic" then 'P'
+  else if (r.splitOn " err=panic").length > 1 then 'P'
+  else if (r.splitOn " err=err").length > 1 then 'e'
+  else 'A'
+
+def rleClasses (cs : List Char) : String :=
+  let rec go : Nat → List Char → List (Char × Nat) → List (Char × Nat)
+    | 0, _, acc => acc.reverse
+    | _, [], acc => acc.reverse
+    | fuel+1, c :: rest, acc =>
+      match acc with
+      | (d, n) :: tl => if c = d then go fuel rest ((d, n+1) :: tl) else go fuel rest ((c, 1) :: acc)
+      | [] => go fuel rest [(c, 1)]
+  ",".intercalate ((go (cs.length + 1) cs []).map fun (c, n) => s!"{c}{n}")
+
+def classifyPrefixes (cols : List Col) (dc : Decomp) (file : Bytes) : String :=
+  rleClasses ((List.range file.length).map fun n => classifyRead cols dc (file.take n))
+
 def transpose (n : Nat) (colsRecs : List (List String)) : List String :=
   (List.range n).map fun i => "|".intercalate (colsRecs.map fun rs => rs.getD i "?")
 
